@@ -142,16 +142,11 @@ theorem write_creates (σ : Nat → Nat) (w : World) (h : CollH) (o : CollOp)
     · simp [Coll.isCreated]
   · simp only [collOp]
     generalize nm.getD (genIndexName info.key) = name
-    have hup : ({ c with indexes := alUpsert name info c.indexes } : Coll).isCreated = true := by
-      have := alUpsert_ne_nil name info c.indexes
-      cases hu : alUpsert name info c.indexes with
-      | nil => exact absurd hu this
-      | cons p r => simp [Coll.isCreated]
     cases hg : alGet? name c.indexes with
-    | none => exact hup
+    | none => simp [Coll.isCreated]
     | some ex =>
       by_cases he : ex = info
-      · simp only [he, if_true]; exact hup
+      · simp [he, Coll.isCreated]
       · simp only [he, if_false]
         cases hi : c.indexes with
         | nil => rw [hi] at hg; simp [alGet?] at hg
@@ -309,28 +304,91 @@ theorem spec_persists (σ : Nat → Nat) (s : SWorld) (op : Op) (i : Nat) (d n :
         · rw [← hi]; exact hex
       · exact hex
 
+/-- a step outside the scope of the model (a handle that was never obtained, a listing filter
+    with an empty name) is answered with an error and changes nothing -/
+theorem step_outside_D (σ : Nat → Nat) (w : World) (op : Op) (h : inD σ w op = false) :
+    (Catalog.step σ w op).1 = w := by
+  cases op with
+  | getDb c d => simp [inD, handlesObtained, filterFalsy] at h
+  | listDatabaseNames c => simp [inD, handlesObtained, filterFalsy] at h
+  | getColl hh n =>
+    simp only [inD, handlesObtained, filterFalsy, Bool.not_false, Bool.and_true] at h
+    simp [Catalog.step, unob, h]
+  | coll hh o =>
+    simp only [inD, handlesObtained, filterFalsy, Bool.not_false, Bool.and_true] at h
+    simp [Catalog.step, unob, h]
+  | collRename hh n' dt =>
+    simp only [inD, handlesObtained, filterFalsy, Bool.not_false, Bool.and_true] at h
+    simp [Catalog.step, unob, h]
+  | createCollection hh n =>
+    simp only [inD, handlesObtained, filterFalsy, Bool.not_false, Bool.and_true] at h
+    simp [Catalog.step, unob, h]
+  | renameCollection hh n n' dt =>
+    simp only [inD, handlesObtained, filterFalsy, Bool.not_false, Bool.and_true] at h
+    simp [Catalog.step, unob, h]
+  | dropCollection hh t =>
+    cases t with
+    | byName n =>
+      simp only [inD, handlesObtained, filterFalsy, Bool.not_false, Bool.and_true] at h
+      simp [Catalog.step, unob, h]
+    | byHandle h' =>
+      simp only [inD, handlesObtained, filterFalsy, Bool.not_false, Bool.and_true,
+        Bool.and_eq_false_iff] at h
+      rcases h with h | h <;> simp [Catalog.step, unob, h]
+  | listCollectionNames hh f =>
+    cases f with
+    | none =>
+      simp only [inD, handlesObtained, filterFalsy, Bool.not_false, Bool.and_true] at h
+      simp [Catalog.step, unob, h]
+    | some f =>
+      simp only [Catalog.step, unob]
+      split
+      · rfl
+      · split <;> rfl
+  | dropDatabase c t =>
+    cases t with
+    | byName d => simp [inD, handlesObtained, filterFalsy] at h
+    | byHandle hh =>
+      simp only [inD, handlesObtained, filterFalsy, Bool.not_false, Bool.and_true] at h
+      simp [Catalog.step, unob, h]
+
+/-- one step - in or out of the scope of the model - that is no drop of the namespace, no rename
+    from or onto it and no drop of its database leaves it existing -/
 theorem exists_persists_step (σ : Nat → Nat) (w : World) (op : Op) (i : Nat) (d n : String)
-    (hw : WF w) (hD : inD σ w op = true) (hne : mayRemove σ i d n op = false)
+    (hw : WF w) (hne : mayRemove σ i d n op = false)
     (hex : created w i d n = true) : created (Catalog.step σ w op).1 i d n = true := by
-  have hR := rel_abs hw
-  have hs := (step_refines σ w (abs w) op hR hD).1
-  unfold created at hex ⊢
-  rw [created_iff_isSome hs]
-  apply spec_persists σ (abs w) op i d n hne
-  rw [← created_iff_isSome hR]; exact hex
+  cases hD : inD σ w op with
+  | false => rw [step_outside_D σ w op hD]; exact hex
+  | true =>
+    have hR := rel_abs hw
+    have hs := (step_refines σ w (abs w) op hR hD).1
+    unfold created at hex ⊢
+    rw [created_iff_isSome hs]
+    apply spec_persists σ (abs w) op i d n hne
+    rw [← created_iff_isSome hR]; exact hex
 
 theorem exists_until_drop (σ : Nat → Nat) (i : Nat) (d n : String) (ops : List Op) :
-    ∀ (w : World), WF w → histInD σ w ops = true →
+    ∀ (w : World), WF w →
     ops.all (fun op => !mayRemove σ i d n op) = true →
     created w i d n = true → created (Catalog.run σ w ops).1 i d n = true := by
   induction ops with
-  | nil => intro w _ _ _ h; exact h
+  | nil => intro w _ _ h; exact h
   | cons op ops ih =>
-    intro w hw hD hne hex
-    simp only [histInD, Bool.and_eq_true] at hD
+    intro w hw hne hex
     simp only [List.all_cons, Bool.and_eq_true, Bool.not_eq_true'] at hne
-    exact ih _ (wf_step σ w op hw) hD.2 hne.2
-      (exists_persists_step σ w op i d n hw hD.1 hne.1 hex)
+    exact ih _ (wf_step σ w op hw) hne.2
+      (exists_persists_step σ w op i d n hw hne.1 hex)
+
+/-- the converse reading: a namespace that existed and does not any more was dropped, renamed
+    away or onto, or its database was dropped - by that very step -/
+theorem vanishes_only_by_removal (σ : Nat → Nat) (w : World) (op : Op) (i : Nat) (d n : String)
+    (hw : WF w) (hex : created w i d n = true)
+    (hgone : created (Catalog.step σ w op).1 i d n = false) : mayRemove σ i d n op = true := by
+  cases hm : mayRemove σ i d n op with
+  | true => rfl
+  | false =>
+    have := exists_persists_step σ w op i d n hw hm hex
+    rw [hgone] at this; exact absurd this (by simp)
 
 theorem created_listed {w : World} (hw : WF w) (i : Nat) (d n : String)
     (hex : created w i d n = true) :
